@@ -29,8 +29,17 @@ type c06Stats struct {
 
 // checkCycleCase runs one (graph, requested, parallelism, perturbation) case.
 func checkCycleCase(r *vlib.Run, p *vlib.Perturber, st *c06Stats, id string, g importGraph, roots []int, par int, defaultReporter bool) {
-	prefix := fmt.Sprintf("k%d/", caseCtr.Add(1))
+	caseNo := caseCtr.Add(1)
+	prefix := fmt.Sprintf("k%d/", caseNo)
 	src := g.sources(prefix)
+	override := false
+	if caseNo%5 == 0 {
+		// an overridden descriptor.proto: every file then has one more, implicit, dependency
+		if ds, err := gen.DescriptorProtoSource(); err == nil {
+			src["google/protobuf/descriptor.proto"] = ds
+			override = true
+		}
+	}
 	var names []string
 	for _, v := range roots {
 		names = append(names, fileName(prefix, v))
@@ -42,7 +51,10 @@ func checkCycleCase(r *vlib.Run, p *vlib.Perturber, st *c06Stats, id string, g i
 
 	wantCycle := g.cycleReachable(roots)
 	wantErr := wantCycle || g.missingReachable(roots)
-	w := map[string]any{"graph": g.String(), "requested": roots, "parallelism": par, "cycle_reachable": wantCycle}
+	w := map[string]any{"graph": g.String(), "requested": roots, "parallelism": par, "cycle_reachable": wantCycle, "descriptor_proto_overridden": override}
+	if override {
+		r.Class("descriptor.proto overridden")
+	}
 	cls := "acyclic"
 	if wantCycle {
 		cls = "cyclic"
